@@ -169,9 +169,10 @@ theorem boundaryNew_bnd {ds : DSymData} (hv : ValidSet ds.dset) : Bnd ds (bounda
 theorem glueRecursively_ok {ds : DSymData} (hs : ValidSym ds) {m : OppMap} (hm : Bnd ds m)
     (todo : List Item) (hok : ∀ it ∈ todo, ItemOk ds it) :
     ∃ m' out, glueRecursively ds m todo = .ok (m', out) ∧ Bnd ds m' ∧
-      (∀ k, Rng ds k → oppGet m k = none → oppGet m' k = none) ∧ ∀ it ∈ out, ItemR ds it := by
+      (∀ k, Rng ds k → oppGet m k = none → oppGet m' k = none) ∧ (∀ it ∈ out, ItemR ds it) ∧
+      (∀ it ∈ todo, it.2.2 = none → Glued ds m' it.1 it.2.1) := by
   unfold glueRecursively
-  obtain ⟨m', out, e, inv, mono, ⟨l, hl, hlr⟩, hc⟩ := glueRecLoop_ok hs (glueFuel ds todo) m todo []
+  obtain ⟨m', out, e, inv, mono, ⟨l, hl, hlr, _⟩, hc, hgl⟩ := glueRecLoop_ok hs (glueFuel ds todo) m todo []
     hm.1 hok (by
       unfold glueFuel
       have := hm.2
@@ -179,7 +180,7 @@ theorem glueRecursively_ok {ds : DSymData} (hs : ValidSym ds) {m : OppMap} (hm :
         have : ds.size ≤ 2 * (ds.size + 1) := by omega
         exact Nat.mul_le_mul_right _ (Nat.mul_le_mul_right _ this)
       omega)
-  refine ⟨m', out, e, ⟨inv, hc.trans hm.2⟩, mono, ?_⟩
+  refine ⟨m', out, e, ⟨inv, hc.trans hm.2⟩, mono, ?_, hgl⟩
   intro it hit
   rw [hl] at hit
   simp at hit
@@ -331,7 +332,7 @@ theorem genStep_ok {ds : DSymData} (hs : ValidSym ds) (st : GenState) (hb : Bnd 
   split
   · rw [op_eq hd.2.2 hd.1 hd.2.1]
     simp only
-    obtain ⟨m', out, e, hb', _, hout⟩ := glueRecursively_ok hs hb [(d, i, none)] (by
+    obtain ⟨m', out, e, hb', _, hout, _⟩ := glueRecursively_ok hs hb [(d, i, none)] (by
       intro it hit
       simp only [List.mem_singleton] at hit
       subst hit
